@@ -17,6 +17,38 @@ pub fn check(name: &str, case: &Value, v: &Violation) -> bool {
         // KF-026: a definition named like a prelude item the generated code writes unqualified
         // (`Default::default()`, `Ok(..)`, `Err(..)`, `Some(..)`, `None`) shadows it
         "definition_named_default" => any_schema_node(case, &mut |o| o.keys().any(|k| matches!(crate::gen::names::sanitize_like(k, true).as_str(), "Default" | "Ok" | "Err" | "Some" | "None")) && o.values().all(|x| x.is_object() || x.is_boolean())),
+        // KF-028: two variants of one union whose payloads differ only in how often they are
+        // wrapped as nullable (Option<T> / Option<Option<T>>): typify flattens both to Option<T> and
+        // emits `From<Option<T>>` twice
+        "variants_differ_only_in_nested_nullable" => any_schema_node(case, &mut |o| {
+            let Some(bs) = o.get("oneOf").or_else(|| o.get("anyOf")).and_then(|b| b.as_array()) else { return false };
+            fn strip(v: &Value, depth: &mut usize) -> Value {
+                if let Some(alts) = v.get("anyOf").or_else(|| v.get("oneOf")).and_then(|a| a.as_array()) {
+                    if alts.len() == 2 && alts.iter().filter(|a| a.get("type") == Some(&Value::String("null".into()))).count() == 1 {
+                        *depth += 1;
+                        let inner = alts.iter().find(|a| a.get("type") != Some(&Value::String("null".into()))).unwrap();
+                        return strip(inner, depth);
+                    }
+                }
+                v.clone()
+            }
+            let mut seen: Vec<(Value, usize)> = vec![];
+            for b in bs {
+                let Some(ps) = b.get("properties").and_then(|p| p.as_object()) else { continue };
+                if ps.len() != 1 {
+                    continue;
+                }
+                let mut d = 0;
+                let core = strip(ps.values().next().unwrap(), &mut d);
+                if d >= 1 && seen.iter().any(|(c, e)| c == &core && *e != d) {
+                    return true;
+                }
+                if d >= 1 {
+                    seen.push((core, d));
+                }
+            }
+            false
+        }),
         // KF-027: a bidirectional-control character of the schema text ends up in a doc comment
         "bidi_control_in_doc_comment" => v.detail.contains("text_direction_codepoint"),
         "root_title_is_also_a_definition" => case.get("history").and_then(|h| h.as_array()).map(|steps| steps.iter().any(|st| {
@@ -112,7 +144,8 @@ pub fn any_schema_node(case: &Value, f: &mut dyn FnMut(&serde_json::Map<String, 
             _ => false,
         }
     }
-    case.get("history").map(|h| walk(h, f)).unwrap_or(false)
+    // (most cases carry their schemas in `history`; C04's carry one document under `schema`)
+    case.get("history").map(|h| walk(h, f)).unwrap_or(false) || case.get("schema").map(|h| walk(h, f)).unwrap_or(false)
 }
 
 fn is_plain_scalar(v: &Value) -> bool {
